@@ -46,6 +46,12 @@ var optFuncs = []string{"bexpr.getOpts", "bexpr.getDefaultOptions", "bexpr.WithT
 	"bexpr.WithUnknownValue", "bexpr.WithUnknownValue$1", "bexpr.WithLocalVariable", "bexpr.WithLocalVariable$1",
 	"bexpr.WithMaxExpressions", "bexpr.WithMaxExpressions$1"}
 
+// the PEG engine's node methods (value passing: C10; backtracking hygiene: C15; budget: C11)
+var engineFuncs = []string{"grammar.parser.failAt", "grammar.parser.parseExpr", "grammar.parser.parseRule", "grammar.parser.parseActionExpr", "grammar.parser.parseAndCodeExpr", "grammar.parser.parseAndExpr",
+	"grammar.parser.parseAnyMatcher", "grammar.parser.parseCharClassMatcher", "grammar.parser.parseChoiceExpr", "grammar.parser.parseLabeledExpr", "grammar.parser.parseLitMatcher",
+	"grammar.parser.parseNotCodeExpr", "grammar.parser.parseNotExpr", "grammar.parser.parseOneOrMoreExpr", "grammar.parser.parseRecoveryExpr", "grammar.parser.parseRuleRefExpr",
+	"grammar.parser.parseSeqExpr", "grammar.parser.parseThrowExpr", "grammar.parser.parseZeroOrMoreExpr", "grammar.parser.parseZeroOrOneExpr"}
+
 func init() {
 	add := func(p *propSpec) { propTable[p.ID] = p }
 	add(&propSpec{ID: "C01", Level: "proof", Funcs: evalChain,
@@ -83,7 +89,7 @@ func init() {
 		"grammar.CollectionExpression.ExpressionDump", "grammar.Selector.String", "grammar.UnaryOperator.String", "grammar.BinaryOperator.String", "grammar.MatchOperator.String",
 		"grammar.CollectionNameBinding.String"}, Extras: []string{"frame:write:grammar.UnaryExpression.ExpressionDump,grammar.BinaryExpression.ExpressionDump,grammar.MatchExpression.ExpressionDump,grammar.CollectionExpression.ExpressionDump"},
 		Trusted: trust("A-FMT", "A-STRINGS", "A-ARITH-2", "A-STACK", "A-ENGINE")})
-	add(&propSpec{ID: "C15", Level: "exploration", BatteryIsCheck: true, DistinctKey: "accepted_distinct", Funcs: actionFuncs,
+	add(&propSpec{ID: "C15", Level: "exploration", BatteryIsCheck: true, DistinctKey: "accepted_distinct", Funcs: append(append([]string(nil), actionFuncs...), engineFuncs...),
 		Rule:    "every sequence of <= 2 tokens over a 46-token alphabet (keywords, keywords as identifier prefixes, operators, punctuation, numbers incl. malformed, quoted/backtick/pointer/unterminated/bad-escape strings, an invalid UTF-8 byte) and <= 3 tokens over a 20-token core (thorough: <= 3 and <= 4), each with every assignment of {\"\", \" \"} to the gaps, plus ~110 complete statements; grammar.Parse is compared with an independent hand-written PEG recognizer/AST builder (accept/reject and deep equality of the tree). distinct_nontrivial = distinct inputs accepted by both",
 		Trusted: []string{"A-GEN", "A-ENGINE", "the reference parser /verif/replay/zz_bxv_refparse_test.go is the oracle"}})
 	add(&propSpec{ID: "C16", Level: "exploration", BatteryIsCheck: true, DistinctKey: "distinct_texts", Funcs: actionFuncs,
